@@ -74,6 +74,10 @@ def build(spec):
             v = build(v)
         elif isinstance(v, dict) and "rs" in v:
             v = np.random.RandomState(v["rs"])
+        elif isinstance(v, dict) and set(v) == {"fn"}:
+            import sklearn.metrics.pairwise as PW
+
+            v = getattr(PW, v["fn"])
         params[k] = v
     return _lookup(spec["cls"])(**params)
 
@@ -178,6 +182,15 @@ def gen_strategy(rng: SimRng, cls, classes=(0, 1), explicit_manager=None, manage
                     p["metric_dict"] = {}  # a caller-owned dict without gamma
         if cls == "StreamDensityBasedAL":
             p["window_size"] = rng.pick([1, 2, 3, 5, 10, 100])
+        if cls == "StreamDensityBasedAL" or cls in COGNITIVE:
+            # the distance function and its (caller-owned) keyword dictionary
+            r = rng.random()
+            if r < 0.2:
+                p["dist_func_dict"] = {"metric": rng.pick(["manhattan", "chebyshev"])}
+            elif r < 0.3:
+                p["dist_func"] = {"fn": "manhattan_distances"}
+            elif r < 0.35:
+                p["dist_func_dict"] = {}
         if cls in COGNITIVE:
             p.update(
                 force_full_budget=rng.chance(0.5),
